@@ -2,6 +2,7 @@
 #include <config.h>
 #endif /* HAVE_CONFIG_H */
 
+#include <limits.h>
 #include "src/std.h"
 #include "lpc/object.h"
 
@@ -10,7 +11,9 @@
 void
 f_set_heart_beat (void)
 {
-  int tick = (int)(sp--)->u.number;
+  /* LPC integers are 64 bit: saturate instead of truncating (2^32 used to mean "disable") */
+  int64_t n = (sp--)->u.number;
+  int tick = (n > SHRT_MAX) ? SHRT_MAX : (n < -1) ? -1 : (int) n;
   set_heart_beat (current_object, tick);
 }
 #endif
